@@ -39,6 +39,14 @@ reaches the rules in the same shape:
   K18 for i in range(len(X)): .. X[i] ..  ->  for i, e in enumerate(X): .. e ..
                                       (X a name the body only reads as X[i]
                                       or len(X); i not re-bound)
+  K22 add = xs[k].append; add(v)  ->  xs[k].append(v)   (add bound once to a
+      method of a plain receiver whose names are never re-bound or stored
+      into, and used only as a callee)
+  K21 r = (a, b); .. r[0] ..; x, y = r; return r  ->  r__0, r__1 = a, b; ..
+      r__0 ..; x, y = r__0, r__1; return (r__0, r__1)   (r a local only bound
+      to tuple displays of one length, read only in these three ways)
+  K20 while True: if C: break; rest  ->  while not C: rest   (also ``return``
+      when the loop is the last statement of the function)
   K19 opts = {"a": x}; f(**opts)  ->  f(a=x)   (constant keys, plain values,
                                       opts used only as **opts)
   K9  t = delayed(f); t(x)        ->  delayed(f)(x)     (t bound once and
@@ -255,10 +263,151 @@ class Canon(ast.NodeTransformer):
         ast.fix_missing_locations(new)
         return new
 
+    def _while_true(self, node, exits):
+        """K20  while True: if C: break; rest   ->   while not C: rest
+        (``exits``: the statement kinds that leave the loop at that point -
+        ``return`` counts when nothing follows the loop in the function)"""
+        if not (isinstance(node, ast.While) and isinstance(
+                node.test, ast.Constant) and node.test.value is True
+                and len(node.body) > 1 and not node.orelse):
+            return False
+        first = node.body[0]
+        if not (isinstance(first, ast.If) and not first.orelse
+                and len(first.body) == 1 and isinstance(first.body[0], exits)
+                and getattr(first.body[0], "value", None) is None):
+            return False
+        c = first.test
+        node.test = c.operand if isinstance(c, ast.UnaryOp) and isinstance(
+            c.op, ast.Not) else ast.copy_location(
+                ast.UnaryOp(op=ast.Not(), operand=c), c)
+        node.body = node.body[1:]
+        self.applied["K20"] = self.applied.get("K20", 0) + 1
+        return True
+
+    def visit_While(self, node):
+        self.generic_visit(node)
+        self._while_true(node, (ast.Break,))
+        return node
+
+    def _scalarise_records(self, fn):
+        """K21  r = (a, b, c) ... r[1] ... x, y, z = r ... return r   ->
+        r__0, r__1, r__2 = a, b, c ... r__1 ... x, y, z = r__0, r__1, r__2
+        ... return (r__0, r__1, r__2)
+        for a local name that is only ever bound to tuple displays of one
+        length and only read by constant subscript, by unpacking into as
+        many targets, or as the returned value."""
+        own, nested = [], []
+
+        def walk(n, inner):
+            for ch in ast.iter_child_nodes(n):
+                deeper = inner or isinstance(
+                    ch, (ast.FunctionDef, ast.AsyncFunctionDef, ast.Lambda,
+                         ast.ClassDef))
+                (nested if deeper else own).append(ch)
+                walk(ch, deeper)
+        for st in fn.body:
+            own.append(st)
+            walk(st, False)
+        params = {a.arg for a in fn.args.args + fn.args.kwonlyargs
+                  + fn.args.posonlyargs}
+        for extra in (fn.args.vararg, fn.args.kwarg):
+            if extra is not None:
+                params.add(extra.arg)
+        parent = {}
+        for n in own:
+            for ch in ast.iter_child_nodes(n):
+                parent[id(ch)] = n
+        cands = {}
+        for n in own:
+            if isinstance(n, ast.Assign) and len(n.targets) == 1 and \
+                    isinstance(n.targets[0], ast.Name) and isinstance(
+                        n.value, ast.Tuple) and n.value.elts and not any(
+                        isinstance(e, ast.Starred) for e in n.value.elts):
+                cands.setdefault(n.targets[0].id, set()).add(
+                    len(n.value.elts))
+        hidden = {x.id for x in nested if isinstance(x, ast.Name)}
+        done = False
+        for name, sizes in sorted(cands.items()):
+            if len(sizes) != 1 or name in params or name in hidden:
+                continue
+            k = next(iter(sizes))
+            ok = True
+            for n in own:
+                if not (isinstance(n, ast.Name) and n.id == name):
+                    continue
+                par = parent.get(id(n))
+                if isinstance(n.ctx, ast.Store):
+                    ok = ok and isinstance(par, ast.Assign) and \
+                        par.targets == [n] and isinstance(
+                            par.value, ast.Tuple) and len(
+                                par.value.elts) == k
+                elif isinstance(n.ctx, ast.Load):
+                    if isinstance(par, ast.Subscript) and par.value is n \
+                            and isinstance(par.ctx, ast.Load) and \
+                            isinstance(par.slice, ast.Constant) and type(
+                                par.slice.value) is int and \
+                            -k <= par.slice.value < k:
+                        continue
+                    if isinstance(par, ast.Assign) and par.value is n and \
+                            len(par.targets) == 1 and isinstance(
+                                par.targets[0], (ast.Tuple, ast.List)) and \
+                            len(par.targets[0].elts) == k and not any(
+                                isinstance(e, ast.Starred)
+                                for e in par.targets[0].elts):
+                        continue
+                    if isinstance(par, ast.Return) and par.value is n:
+                        continue
+                    ok = False
+                else:
+                    ok = False
+            if not ok:
+                continue
+            fields = [f"{name}__{i}" for i in range(k)]
+
+            class _R(ast.NodeTransformer):
+                def visit_FunctionDef(self, node):
+                    return node
+
+                visit_AsyncFunctionDef = visit_Lambda = visit_ClassDef = \
+                    visit_FunctionDef
+
+                def visit_Subscript(self, node):
+                    if isinstance(node.value, ast.Name) and \
+                            node.value.id == name and isinstance(
+                                node.ctx, ast.Load):
+                        return ast.copy_location(ast.Name(
+                            id=fields[node.slice.value % k],
+                            ctx=ast.Load()), node)
+                    self.generic_visit(node)
+                    return node
+
+                def visit_Name(self, node):
+                    if node.id != name:
+                        return node
+                    if isinstance(node.ctx, ast.Store):
+                        new = ast.Tuple(elts=[ast.Name(id=f_, ctx=ast.Store())
+                                              for f_ in fields],
+                                        ctx=ast.Store())
+                    else:
+                        new = ast.Tuple(elts=[ast.Name(id=f_, ctx=ast.Load())
+                                              for f_ in fields],
+                                        ctx=ast.Load())
+                    return ast.copy_location(new, node)
+            fn.body = [_R().visit(st) for st in fn.body]
+            ast.fix_missing_locations(fn)
+            self.applied["K21"] = self.applied.get("K21", 0) + 1
+            done = True
+            break           # parents are stale: one record per pass
+        if done:
+            self._scalarise_records(fn)
+
     def visit_FunctionDef(self, node):
         prev, self.cur_fn = self.cur_fn, node
+        self._scalarise_records(node)
         self.generic_visit(node)
         self.cur_fn = prev
+        if node.body:
+            self._while_true(node.body[-1], (ast.Break, ast.Return))
         self._inline_task_aliases(node)
         self._spread_keyword_dicts(node)
         return node
@@ -386,6 +535,50 @@ class Canon(ast.NodeTransformer):
             # the binding itself becomes a no-op
             st.value = ast.Constant(value=None)
             self.applied["K9"] = self.applied.get("K9", 0) + 1
+        # K22  add = xs[k].append ... add(v)  ->  xs[k].append(v)
+        # (add bound once to a method of a plain receiver - names,
+        # constant-free subscripts and attributes of names that the
+        # function never re-binds and never stores into - and used only as
+        # a callee)
+        for st in list(ast.walk(fn)):
+            if not (isinstance(st, ast.Assign) and len(st.targets) == 1
+                    and isinstance(st.targets[0], ast.Name)
+                    and isinstance(st.value, ast.Attribute)):
+                continue
+            recv = st.value.value
+            if not all(isinstance(x, (ast.Name, ast.Subscript, ast.Attribute,
+                                      ast.Load, ast.Constant))
+                       for x in ast.walk(recv)):
+                continue
+            name = st.targets[0].id
+            rnames = _names(recv)
+            if name in rnames:
+                continue
+            stores = [n for n in ast.walk(fn) if isinstance(n, ast.Name)
+                      and n.id == name and isinstance(n.ctx, (ast.Store,
+                                                              ast.Del))]
+            loads = [n for n in ast.walk(fn) if isinstance(n, ast.Name)
+                     and n.id == name and isinstance(n.ctx, ast.Load)]
+            callees = [c for c in ast.walk(fn) if isinstance(c, ast.Call)
+                       and isinstance(c.func, ast.Name)
+                       and c.func.id == name]
+            if len(stores) != 1 or not loads or len(loads) != len(callees):
+                continue
+            rebound = any(
+                isinstance(n, ast.Name) and n.id in rnames
+                and isinstance(n.ctx, (ast.Store, ast.Del))
+                for n in ast.walk(fn))
+            stored_into = any(
+                isinstance(n, (ast.Subscript, ast.Attribute))
+                and isinstance(n.ctx, (ast.Store, ast.Del))
+                and _names(n.value) & rnames for n in ast.walk(fn))
+            if rebound or stored_into:
+                continue
+            for c in callees:
+                c.func = _copy(st.value)
+                ast.copy_location(c.func, c)
+            st.value = ast.Constant(value=None)
+            self.applied["K22"] = self.applied.get("K22", 0) + 1
         # jobs = (task(x) for x in xs); Parallel(..)(jobs)
         #   ->  Parallel(..)(task(x) for x in xs)
         # (jobs bound once, used once - as the only argument of a call whose
@@ -720,6 +913,40 @@ class Canon(ast.NodeTransformer):
                     j = i + 1
                     while j < len(out) and name not in _names(out[j]):
                         j += 1
+                    if j < len(out) and isinstance(out[j], ast.If) and \
+                            name not in _names(out[j].test) and not any(
+                                name in _names(x) for x in out[j].orelse):
+                        # xs = []; if C: for ..: xs.append(..)   ->
+                        # xs = []; if C: xs = [..]   (the empty default
+                        # stays, the filling loop becomes a comprehension)
+                        inner = [x for x in out[j].body
+                                 if name in _names(x)]
+                        if len(inner) == 1 and isinstance(inner[0], ast.For):
+                            acc = self._accum(inner[0], name)
+                            if acc and acc[0] == kind:
+                                loop = inner[0]
+                                gen = ast.comprehension(
+                                    target=loop.target, iter=loop.iter,
+                                    ifs=[acc[3]] if acc[3] is not None
+                                    else [], is_async=0)
+                                if kind == "list":
+                                    val = ast.ListComp(elt=acc[1],
+                                                       generators=[gen])
+                                    self.applied["K1"] += 1
+                                else:
+                                    val = ast.DictComp(
+                                        key=acc[1], value=acc[2],
+                                        generators=[gen])
+                                    self.applied["K2"] += 1
+                                new = ast.Assign(
+                                    targets=[_copy(st.targets[0])],
+                                    value=val)
+                                ast.copy_location(new, loop)
+                                ast.copy_location(val, loop)
+                                out[j].body = [new if x is loop else x
+                                               for x in out[j].body]
+                                i += 1
+                                continue
                     if j < len(out) and isinstance(out[j], ast.For):
                         acc = self._accum(out[j], name)
                         if acc and acc[0] == kind:
